@@ -155,18 +155,25 @@ class Outcome:
 _NONE = ast.Constant(value=None)
 
 
-def run_block(stmts, ev: Ev, ex: Expander, executed=None) -> Outcome:
-    """abstractly execute a loop-free statement list; simple statements are collected in `executed`"""
+def run_block(stmts, ev: Ev, ex: Expander, executed=None, local=None) -> Outcome:
+    """abstractly execute a loop-free statement list; simple statements are collected in `executed`.  Plain locals
+    assigned on the executed path (`available = 0` in one arm of an if/elif/else, `return available` at the single
+    exit) are remembered and substituted into later tests and the returned expression."""
     executed = [] if executed is None else executed
+    local = {} if local is None else local
+
+    def xp(e):
+        v = ex.expand(e)
+        return subst(v, local) if local else v
     try:
         for st in stmts:
             if isinstance(st, ast.If):
-                t = ev.truth(ex.expand(st.test))
-                r = run_block(st.body if t else st.orelse, ev, ex, executed)
+                t = ev.truth(xp(st.test))
+                r = run_block(st.body if t else st.orelse, ev, ex, executed, local)
                 if r.kind != 'fall':
                     return r
             elif isinstance(st, ast.Return):
-                v = ex.expand(st.value) if st.value is not None else _NONE
+                v = xp(st.value) if st.value is not None else _NONE
                 return Outcome('return', st, ev.select(v), executed)
             elif isinstance(st, ast.Raise):
                 return Outcome('raise', st, None, executed)
@@ -176,6 +183,15 @@ def run_block(stmts, ev: Ev, ex: Expander, executed=None) -> Outcome:
                 return Outcome('break', st, None, executed)
             elif isinstance(st, (ast.Assign, ast.AugAssign, ast.AnnAssign, ast.Expr, ast.Pass)):
                 executed.append(st)
+                if isinstance(st, ast.Assign) and len(st.targets) == 1 and isinstance(st.targets[0], ast.Name):
+                    local[st.targets[0].id] = xp(st.value)
+                elif isinstance(st, ast.AnnAssign) and isinstance(st.target, ast.Name) and st.value is not None:
+                    local[st.target.id] = xp(st.value)
+                else:
+                    for t in (st.targets if isinstance(st, ast.Assign) else [getattr(st, 'target', None)]):
+                        for n in (ast.walk(t) if t is not None else []):
+                            if isinstance(n, ast.Name):
+                                local.pop(n.id, None)
             else:
                 return Outcome('unknown', st, None, executed, f"statement `{type(st).__name__}` inside the block")
     except Unknown as u:
@@ -602,6 +618,18 @@ class STd:
         self.days = days
 
 
+class SGen:
+    """a generator expression, evaluated eagerly (the capacity oracle has no side effects) but consumed like one"""
+
+    def __init__(self, items):
+        self.items, self.pos = list(items), 0
+
+    def rest(self):
+        out = self.items[self.pos:]
+        self.pos = len(self.items)
+        return out
+
+
 class _Sig(Exception):
     def __init__(self, kind, value=None, node=None):
         self.kind, self.value, self.node = kind, value, node
@@ -707,9 +735,7 @@ class SearchSim:
                 if not broke:
                     self.block(st.orelse, env, f, depth)
             elif isinstance(st, ast.For):
-                it = self.ev(st.iter, env, f, depth)
-                if not isinstance(it, (range, list, tuple)):
-                    raise SimUnknown(st.iter, "loop over something else than a range")
+                it = self.iterate(self.ev(st.iter, env, f, depth), st.iter)
                 broke = False
                 for x in it:
                     self.budget -= 1
@@ -744,6 +770,34 @@ class SearchSim:
             else:
                 raise SimUnknown(st, f"statement `{type(st).__name__}`")
 
+    def iterate(self, it, node):
+        if isinstance(it, SGen):
+            return it.rest()
+        if isinstance(it, (range, list, tuple)):
+            return list(it)
+        raise SimUnknown(node, "iteration over something else than a range / a list of values")
+
+    def comprehension(self, e, env, f, depth):
+        out = []
+
+        def rec(i, env2):
+            if i == len(e.generators):
+                out.append(self.ev(e.elt, env2, f, depth))
+                return
+            g = e.generators[i]
+            if g.is_async:
+                raise SimUnknown(e, "async comprehension")
+            for x in self.iterate(self.ev(g.iter, env2, f, depth), g.iter):
+                self.budget -= 1
+                if self.budget < 0:
+                    raise _Sig('timeout')
+                env3 = dict(env2)
+                self.store(g.target, x, env3)
+                if all(self.truth(self.ev(c, env3, f, depth)) for c in g.ifs):
+                    rec(i + 1, env3)
+        rec(0, env)
+        return out
+
     def store(self, t, val, env):
         if isinstance(t, ast.Name):
             env[t.id] = val
@@ -756,6 +810,8 @@ class SearchSim:
     # -- expressions
     @staticmethod
     def truth(v):
+        if isinstance(v, SGen):
+            return True
         if isinstance(v, (SDate, STd)) or v is _SELF:
             if isinstance(v, STd):
                 return v.days != 0
@@ -884,6 +940,17 @@ class SearchSim:
             return True
         if isinstance(e, (ast.Tuple, ast.List)):
             return tuple(self.ev(x, env, f, depth) for x in e.elts)
+        if isinstance(e, ast.Subscript) and not isinstance(e.slice, ast.Slice):
+            seq, i = self.ev(e.value, env, f, depth), self.ev(e.slice, env, f, depth)
+            if isinstance(seq, (list, tuple, range)) and isinstance(i, int) and not isinstance(i, bool):
+                if -len(seq) <= i < len(seq):
+                    return seq[i]
+                raise _Sig('raise', 'IndexError', e)
+            raise SimUnknown(e, "subscript of something else than a list of values")
+        if isinstance(e, ast.GeneratorExp):
+            return SGen(self.comprehension(e, env, f, depth))
+        if isinstance(e, ast.ListComp):
+            return self.comprehension(e, env, f, depth)
         if isinstance(e, ast.Call):
             return self.call(e, env, f, depth)
         raise SimUnknown(e, f"`{src(e)[:60]}` is outside the value domain")
@@ -902,6 +969,34 @@ class SearchSim:
                         raise SimUnknown(c, "timedelta argument")
                     days += v * _TD_SCALE[name]
                 return STd(days)
+            if fn.id == 'next' and 1 <= len(c.args) <= 2 and not c.keywords:
+                it = self.ev(c.args[0], env, f, depth)
+                if isinstance(it, SGen):
+                    if it.pos < len(it.items):
+                        it.pos += 1
+                        return it.items[it.pos - 1]
+                    if len(c.args) == 2:
+                        return self.ev(c.args[1], env, f, depth)
+                    raise _Sig('raise', 'StopIteration', c)
+                raise SimUnknown(c, "next() of something else than a generator expression")
+            if fn.id in ('list', 'tuple', 'iter', 'any', 'all', 'len', 'enumerate', 'reversed') and len(c.args) == 1 and not c.keywords:
+                v = self.ev(c.args[0], env, f, depth)
+                if fn.id == 'iter':
+                    return v if isinstance(v, SGen) else SGen(self.iterate(v, c))
+                if fn.id == 'len' and isinstance(v, SGen):
+                    raise _Sig('raise', 'TypeError', c)
+                items = self.iterate(v, c)
+                if fn.id in ('list', 'tuple'):
+                    return items
+                if fn.id == 'any':
+                    return any(self.truth(x) for x in items)
+                if fn.id == 'all':
+                    return all(self.truth(x) for x in items)
+                if fn.id == 'len':
+                    return len(items)
+                if fn.id == 'enumerate':
+                    return [(i, x) for i, x in enumerate(items)]
+                return list(reversed(items))
             if fn.id in ('range', 'abs', 'int', 'float', 'min', 'max', 'bool', 'round') and not c.keywords:
                 args = [self.ev(a, env, f, depth) for a in c.args]
                 if all(isinstance(a, (int, float)) for a in args):
